@@ -70,6 +70,10 @@ func dropEmptyStrs(strs []string) []string {
 
 func (c *UI) parseCommand(str string) (Command, []interface{}, error) {
 	parts := dropEmptyStrs(strings.Split(str, " "))
+	if len(parts) == 0 {
+		return Command{}, nil, fmt.Errorf("no command entered")
+	}
+
 	cmdStr := parts[0]
 	parts = parts[1:]
 
